@@ -141,7 +141,8 @@ def gen_query(R, funcs):
     for n, k in funcs.items():
         reg[n] = FUNC_KINDS[k]
     cfg = G.Cfg(filters=True, registry=reg, max_depth=2, max_segments=3)
-    cfg.names = ["a", "b", "c", "id"]
+    cfg.names = ["a", "b", "c", "id", 'q"r', "a'b", "a"]
+    cfg.lit_pool = [None, True, 0, 1, 2, 7, "a", "b", 'x"y', "it's", 1.5]
     cfg.indices = [0, 1, -1, 2]
     gen = G.QGen(R, cfg)
     r = R.random()
@@ -178,7 +179,8 @@ def gen_query(R, funcs):
 
 def gen_doc(R):
     leaves = [None, True, False, 0, 1, 2, 7, 1.5, "", "a", "b", "x"]
-    names = ["a", "b", "c", "id", "items", "limit"]
+    names = ["a", "b", "c", "id", "items", "limit", 'q"r', "a'b"]
+    leaves = leaves + ['x"y', "it's"]
     d = D.gen_value(R, names, leaves, 0, R.choice([2, 3, 4]), 4)
     if not isinstance(d, (list, dict)) or R.random() < 0.4:
         d = {"items": [D.gen_value(R, names, leaves, 1, 3, 3) for _ in range(R.randint(1, 4))], "limit": R.choice(leaves), "a": R.choice(leaves), "b": [R.choice(leaves)],
@@ -233,6 +235,8 @@ class History:
         self.obs = []        # observations: dict(text, cfg, doc_content, result)
         self.violations = []
         self.fresh = 0
+        self.live = []
+        self.pinned = set()
         self.flags = {"envs": 0, "reuse": 0}
 
     def new_env(self):
@@ -311,6 +315,34 @@ class History:
             if o[0] == "ok":
                 self.compiled.append((o[1], text, i))
             return
+        if r < 0.62 and self.compiled and R.random() < 0.15:
+            # a live iterator: started now, finished some operations later (other applications of the same query happen in between)
+            if self.live and R.random() < 0.5:
+                it, got, text, i, content, doc = self.live.pop(R.randrange(len(self.live)))
+                try:
+                    for n in it:
+                        got.append(list(n.location))
+                    res = ("ok", got)
+                except Exception as e:  # noqa: BLE001
+                    res = ("err", type(e).__name__)
+                self.pinned.discard(id(doc))
+                self.rec.monitor("M-call")
+                self.obs.append({"what": "compiled.finditer(suspended)", "text": text, "cfg": self.envs[i][1], "doc": content, "res": res, "step": len(self.obs)})
+                self.flags["reuse"] += 1
+            else:
+                q, text, i = R.choice(self.compiled)
+                doc = R.choice(self.docs)
+                if id(doc) not in self.pinned:
+                    try:
+                        it = iter(q.finditer(doc))
+                        n = next(it)
+                        self.live.append((it, [list(n.location)], text, i, plain(doc), doc))
+                        self.pinned.add(id(doc))
+                    except StopIteration:
+                        pass
+                    except Exception:  # noqa: BLE001
+                        pass
+            return
         if r < 0.62 and self.compiled:
             q, text, i = R.choice(self.compiled)
             doc = R.choice(self.docs)
@@ -357,7 +389,9 @@ class History:
             d = R.choice(self.docs)
             self.docs.append(D.deep_copy(plain(d)) if R.random() < 0.5 else tripwired(plain(d)))
             return
-        mutate_in_place(R, R.choice(self.docs))
+        cand = [d for d in self.docs if id(d) not in self.pinned]
+        if cand:
+            mutate_in_place(R, R.choice(cand))
 
     def check_others(self, changed_i, text, before=None):
         jp = self.jp
